@@ -502,7 +502,9 @@ func defectCatalogue() []defect {
 		{"wrong-key", true, func(c *hctx.Ctx, s *testService, r *recipe, d time.Duration) { r.tktKey = randKey(c, r.et) }},
 		{"wrong-kvno", true, func(c *hctx.Ctx, s *testService, r *recipe, d time.Duration) { r.kvno = s.kvno + 1 }},
 		{"kvno-plus-256", true, func(c *hctx.Ctx, s *testService, r *recipe, d time.Duration) { r.kvno = s.kvno + 256*(1+c.R.Intn(300)) }},
-		{"ctime-late-subsecond", true, func(c *hctx.Ctx, s *testService, r *recipe, d time.Duration) { r.ctime = r.ctime.Add(-d - 600*time.Millisecond) }},
+		{"ctime-late-subsecond", true, func(c *hctx.Ctx, s *testService, r *recipe, d time.Duration) {
+			r.ctime = r.ctime.Add(-d - 600*time.Millisecond)
+		}},
 		{"end-outside-subsecond", true, func(c *hctx.Ctx, s *testService, r *recipe, d time.Duration) {
 			// ticket times have whole seconds on the wire: end lies between d+0.2s and d+1.2s in the past
 			r.end = r.now.Add(-d - 1200*time.Millisecond).Truncate(time.Second)
@@ -797,7 +799,11 @@ func Run(c *hctx.Ctx) {
 			c.Check(!p2 && !ok2 && isK && ke.ErrorCode == 34, "a second presentation of the same bytes is rejected as a replay", "replay-accepted", fmt.Sprint(err2), map[string]interface{}{"class": names})
 			sec := r.ctime.Truncate(time.Second)
 			ctus := sec.Unix()*1000000 + int64(r.ctime.Sub(sec)/time.Microsecond)
-			rc := jv.L(jv.L(jv.S(joinSlash(r.authCName)), jv.I(ctus), jv.Strs(r.tktSName)))
+			effS := r.tktSName // the cache remembers the authenticator for the principal whose key decrypted the ticket
+			if ss.override {
+				effS = s.sname
+			}
+			rc := jv.L(jv.L(jv.S(joinSlash(r.authCName)), jv.I(ctus), jv.Strs(effS)))
 			o2 := jv.Err()
 			if p2 {
 				o2 = jv.Panic()
